@@ -323,6 +323,12 @@ def check(run: Run) -> None:
     from .c04 import check_comprehension_shadow
 
     check_comprehension_shadow(run, TermCtx(m, max_depth=2), m, m.find_class("_resolve_called_lambdas", in_module="func_adl.util_ast"), "C06.R6")
+    # the frame a comprehension pushes hides its loop variables only if the look-up honours it: the search stops at the
+    # innermost frame that has the name (C05.R3 re-evaluated)
+    run.rule("C06.R7", "a comprehension's loop variables stay hidden while called lambdas are resolved: the name look-up stops at the shadow entry (C05.R3 re-evaluated)")
+    from ..report import run_stage
+
+    run_stage(run, "c05", only={"C05.R3"})
 
 
 def _raise_precedes(fa, r: ast.Raise, b: ast.Call) -> bool:
